@@ -943,12 +943,18 @@ func (g *sgen) pinnedFile() *descriptorpb.FileDescriptorProto {
 	return fd
 }
 
-// customOptions declares three custom options in the file; instantiate() gives them per-instance numbers and
-// sets them on fields and messages of the same file (as unknown fields, the way protoc hands them to a plugin):
+// customOptions declares custom options in the file; instantiate() gives them per-instance numbers and sets them
+// on declarations of the same file (as unknown fields, the way protoc hands them to a plugin):
 //
 //	extend google.protobuf.FieldOptions   { optional int32  zz_src_opt = N+1 [retention = RETENTION_SOURCE];
 //	                                        optional string zz_run_opt = N+2; }
 //	extend google.protobuf.MessageOptions { optional int32  zz_msg_src_opt = N+3 [retention = RETENTION_SOURCE]; }
+//	message ZzOpt { map<string,int32> sm = 1; map<int32,string> im = 2; repeated int32 r = 3; optional ZzOpt nested = 4;
+//	                optional string s = 5; map<uint64,ZzOpt> mm = 6; }
+//	extend google.protobuf.{File,Message,Field,Enum,EnumValue,Oneof,Service,Method}Options { optional ZzOpt zz_*_opt = N+4..N+11; }
+//
+// The message-typed options carry maps with a dozen entries each: the embedded raw descriptor is deterministic
+// only if the generator marshals it with Deterministic: true (C40).
 func (g *sgen) customOptions(fd *descriptorpb.FileDescriptorProto) {
 	scope := "." + pkgPlaceholder
 	fd.Dependency = append(fd.Dependency, "google/protobuf/descriptor.proto")
@@ -969,27 +975,137 @@ func (g *sgen) customOptions(fd *descriptorpb.FileDescriptorProto) {
 		}
 		fd.Extension = append(fd.Extension, f)
 	}
+	// the option message type
+	g.claim(scope, "ZzOpt")
+	zz := scope + ".ZzOpt"
+	entry := func(name string, kt, vt descriptorpb.FieldDescriptorProto_Type, vtn string) *descriptorpb.DescriptorProto {
+		v := &dpb{Name: proto.String("value"), Number: proto.Int32(2), Label: tOptional(), Type: vt.Enum(), JsonName: proto.String("value")}
+		if vtn != "" {
+			v.TypeName = proto.String(vtn)
+		}
+		return &descriptorpb.DescriptorProto{Name: proto.String(name), Options: &descriptorpb.MessageOptions{MapEntry: proto.Bool(true)}, Field: []*dpb{
+			{Name: proto.String("key"), Number: proto.Int32(1), Label: tOptional(), Type: kt.Enum(), JsonName: proto.String("key")}, v}}
+	}
+	mapf := func(name string, num int32, e string) *dpb {
+		return &dpb{Name: proto.String(name), Number: proto.Int32(num), Label: tRepeated(), Type: descriptorpb.FieldDescriptorProto_TYPE_MESSAGE.Enum(), TypeName: proto.String(zz + "." + e), JsonName: proto.String(name)}
+	}
+	fd.MessageType = append(fd.MessageType, &descriptorpb.DescriptorProto{
+		Name: proto.String("ZzOpt"),
+		Field: []*dpb{
+			mapf("sm", 1, "SmEntry"), mapf("im", 2, "ImEntry"),
+			{Name: proto.String("r"), Number: proto.Int32(3), Label: tRepeated(), Type: descriptorpb.FieldDescriptorProto_TYPE_INT32.Enum(), JsonName: proto.String("r")},
+			{Name: proto.String("nested"), Number: proto.Int32(4), Label: tOptional(), Type: descriptorpb.FieldDescriptorProto_TYPE_MESSAGE.Enum(), TypeName: proto.String(zz), JsonName: proto.String("nested")},
+			{Name: proto.String("s"), Number: proto.Int32(5), Label: tOptional(), Type: descriptorpb.FieldDescriptorProto_TYPE_STRING.Enum(), JsonName: proto.String("s")},
+			mapf("mm", 6, "MmEntry"),
+		},
+		NestedType: []*descriptorpb.DescriptorProto{
+			entry("SmEntry", descriptorpb.FieldDescriptorProto_TYPE_STRING, descriptorpb.FieldDescriptorProto_TYPE_INT32, ""),
+			entry("ImEntry", descriptorpb.FieldDescriptorProto_TYPE_INT32, descriptorpb.FieldDescriptorProto_TYPE_STRING, ""),
+			entry("MmEntry", descriptorpb.FieldDescriptorProto_TYPE_UINT64, descriptorpb.FieldDescriptorProto_TYPE_MESSAGE, zz),
+		},
+	})
+	for i, x := range zzOptExts {
+		g.claim(scope, x.name)
+		fd.Extension = append(fd.Extension, &dpb{Name: proto.String(x.name), Number: proto.Int32(int32(50004 + i)), Label: tOptional(),
+			Type: descriptorpb.FieldDescriptorProto_TYPE_MESSAGE.Enum(), TypeName: proto.String(zz), Extendee: proto.String(".google.protobuf." + x.ext), JsonName: proto.String(strs.JSONCamelCase(x.name))})
+	}
 	g.h("custom_options")
 }
 
-// applyCustomOptions renumbers the custom options of customOptions to base+1..3 and sets them on every fourth
-// field (both field options) and every second message (the message option) of the file.
+var zzOptExts = []struct{ name, ext string }{
+	{"zz_file_opt", "FileOptions"}, {"zz_msg_opt", "MessageOptions"}, {"zz_field_opt", "FieldOptions"}, {"zz_enum_opt", "EnumOptions"},
+	{"zz_enum_value_opt", "EnumValueOptions"}, {"zz_oneof_opt", "OneofOptions"}, {"zz_service_opt", "ServiceOptions"}, {"zz_method_opt", "MethodOptions"},
+}
+
+// zzOptValue encodes a ZzOpt value: 14 string-keyed and 13 integer-keyed map entries in a scrambled order,
+// a repeated field, a string and (depth 0) a nested ZzOpt and a map of ZzOpt values.
+func zzOptValue(tag, depth int) []byte {
+	var b []byte
+	for i := 0; i < 14; i++ {
+		j := (i*5 + tag) % 14
+		var e []byte
+		e = protowire.AppendTag(e, 1, protowire.BytesType)
+		e = protowire.AppendString(e, fmt.Sprintf("k%02d_%d", j, tag%7))
+		e = protowire.AppendTag(e, 2, protowire.VarintType)
+		e = protowire.AppendVarint(e, uint64(j*j+tag))
+		b = protowire.AppendTag(b, 1, protowire.BytesType)
+		b = protowire.AppendBytes(b, e)
+	}
+	for i := 0; i < 13; i++ {
+		j := (i*7 + tag) % 13
+		var e []byte
+		e = protowire.AppendTag(e, 1, protowire.VarintType)
+		e = protowire.AppendVarint(e, uint64(int64(j*37-200))) // negative and positive int32 keys
+		e = protowire.AppendTag(e, 2, protowire.BytesType)
+		e = protowire.AppendString(e, fmt.Sprintf("v%d", j))
+		b = protowire.AppendTag(b, 2, protowire.BytesType)
+		b = protowire.AppendBytes(b, e)
+	}
+	for i := 0; i < 3; i++ {
+		b = protowire.AppendTag(b, 3, protowire.VarintType)
+		b = protowire.AppendVarint(b, uint64(tag+i))
+	}
+	b = protowire.AppendTag(b, 5, protowire.BytesType)
+	b = protowire.AppendString(b, fmt.Sprintf("opt %d", tag))
+	if depth == 0 {
+		b = protowire.AppendTag(b, 4, protowire.BytesType)
+		b = protowire.AppendBytes(b, zzOptValue(tag+1, 1))
+		for i := 0; i < 3; i++ {
+			var e []byte
+			e = protowire.AppendTag(e, 1, protowire.VarintType)
+			e = protowire.AppendVarint(e, uint64((2-i)*1000+tag))
+			e = protowire.AppendTag(e, 2, protowire.BytesType)
+			e = protowire.AppendBytes(e, zzOptValue(tag+2+i, 1))
+			b = protowire.AppendTag(b, 6, protowire.BytesType)
+			b = protowire.AppendBytes(b, e)
+		}
+	}
+	return b
+}
+
+// applyCustomOptions renumbers the custom options of customOptions to base+1..11 and sets them on declarations of
+// the file: the file itself, every second message, every fourth field, every enum and its first value, every
+// real oneof, every service and method.
 func applyCustomOptions(fd *descriptorpb.FileDescriptorProto, base int32) {
 	has := false
+	off := map[string]int32{"zz_src_opt": 1, "zz_run_opt": 2, "zz_msg_src_opt": 3}
+	for i, x := range zzOptExts {
+		off[x.name] = int32(4 + i)
+	}
 	for _, x := range fd.Extension {
-		switch x.GetName() {
-		case "zz_src_opt":
-			x.Number, has = proto.Int32(base+1), true
-		case "zz_run_opt":
-			x.Number = proto.Int32(base + 2)
-		case "zz_msg_src_opt":
-			x.Number = proto.Int32(base + 3)
+		if o, ok := off[x.GetName()]; ok && strings.HasPrefix(x.GetExtendee(), ".google.protobuf.") {
+			x.Number, has = proto.Int32(base+o), true
 		}
 	}
 	if !has {
 		return
 	}
+	addUnknown := func(m proto.Message, b []byte) {
+		r := m.ProtoReflect()
+		r.SetUnknown(append(append([]byte{}, r.GetUnknown()...), b...))
+	}
+	zzOpt := func(name string, tag, depth int) []byte {
+		b := protowire.AppendTag(nil, protowire.Number(base+off[name]), protowire.BytesType)
+		return protowire.AppendBytes(b, zzOptValue(tag, depth))
+	}
+	if fd.Options == nil {
+		fd.Options = &descriptorpb.FileOptions{}
+	}
+	addUnknown(fd.Options, zzOpt("zz_file_opt", 1, 0))
 	k := 0
+	doEnum := func(ed *descriptorpb.EnumDescriptorProto) {
+		k++
+		if ed.Options == nil {
+			ed.Options = &descriptorpb.EnumOptions{}
+		}
+		addUnknown(ed.Options, zzOpt("zz_enum_opt", k, 1))
+		if v := ed.Value[0]; v != nil {
+			if v.Options == nil {
+				v.Options = &descriptorpb.EnumValueOptions{}
+			}
+			addUnknown(v.Options, zzOpt("zz_enum_value_opt", k+1, 1))
+		}
+	}
 	var walk func(md *descriptorpb.DescriptorProto)
 	walk = func(md *descriptorpb.DescriptorProto) {
 		if md.GetOptions().GetMapEntry() {
@@ -1001,9 +1117,14 @@ func applyCustomOptions(fd *descriptorpb.FileDescriptorProto, base int32) {
 				md.Options = &descriptorpb.MessageOptions{}
 			}
 			b := protowire.AppendTag(nil, protowire.Number(base+3), protowire.VarintType)
-			md.Options.ProtoReflect().SetUnknown(protowire.AppendVarint(b, uint64(k)))
+			addUnknown(md.Options, protowire.AppendVarint(b, uint64(k)))
+			addUnknown(md.Options, zzOpt("zz_msg_opt", k, (k/2)%2))
 		}
+		synthetic := map[int32]bool{}
 		for i, f := range md.Field {
+			if f.GetProto3Optional() && f.OneofIndex != nil {
+				synthetic[f.GetOneofIndex()] = true
+			}
 			if (i+k)%4 != 0 {
 				continue
 			}
@@ -1014,7 +1135,20 @@ func applyCustomOptions(fd *descriptorpb.FileDescriptorProto, base int32) {
 			b = protowire.AppendVarint(b, uint64(f.GetNumber()))
 			b = protowire.AppendTag(b, protowire.Number(base+2), protowire.BytesType)
 			b = protowire.AppendString(b, "run:"+f.GetName())
-			f.Options.ProtoReflect().SetUnknown(b)
+			addUnknown(f.Options, b)
+			addUnknown(f.Options, zzOpt("zz_field_opt", int(f.GetNumber())%50, 1))
+		}
+		for i, o := range md.OneofDecl {
+			if synthetic[int32(i)] {
+				continue
+			}
+			if o.Options == nil {
+				o.Options = &descriptorpb.OneofOptions{}
+			}
+			addUnknown(o.Options, zzOpt("zz_oneof_opt", k+i, 1))
+		}
+		for _, e := range md.EnumType {
+			doEnum(e)
 		}
 		for _, n := range md.NestedType {
 			walk(n)
@@ -1022,6 +1156,21 @@ func applyCustomOptions(fd *descriptorpb.FileDescriptorProto, base int32) {
 	}
 	for _, md := range fd.MessageType {
 		walk(md)
+	}
+	for _, e := range fd.EnumType {
+		doEnum(e)
+	}
+	for i, sv := range fd.Service {
+		if sv.Options == nil {
+			sv.Options = &descriptorpb.ServiceOptions{}
+		}
+		addUnknown(sv.Options, zzOpt("zz_service_opt", i, 0))
+		for j, m := range sv.Method {
+			if m.Options == nil {
+				m.Options = &descriptorpb.MethodOptions{}
+			}
+			addUnknown(m.Options, zzOpt("zz_method_opt", i+j, 1))
+		}
 	}
 }
 
